@@ -24,7 +24,9 @@ RULE = ("integer least-squares problems (m,n<=5, cond(A^TA+shift)<=1e4) x shape(
         "(residual clause, |x|*tol>=1 clause, maxit, right-hand side scaled by 2^-30 / 2^10); PCGLS x preconditioner(identity/diagonal/triangular/general) x "
         "(explicit inverse/spsolve) x shift; FISTA/ISTA x prox(L1,L1*strength,nonneg,box None/scalar/vector) x form x dyadic/float "
         "step below 1/L; projections and soft-thresholding on dyadic vectors incl. ties and negative gamma; LM one-unknown "
-        "quadratic residuals (dense/sparse) + 2-unknown stationarity; SciPy wrappers per method. distinct = distinct "
+        "quadratic residuals (dense/sparse) + 2-unknown stationarity; function handles returning their argument / a view / a persistent buffer x shift; "
+        "data scale 2^-30..2^30 on A, b, both; LM residual scale 2^-10..2^10 x relative floor nu0/sigma^2 with step-by-step nu/step/accept traces through "
+        "every branch combination and stationarity also at maxit; inputs not modified; SciPy wrappers per method. distinct = distinct "
         "(operation, inputs, configuration); trivial = zero right-hand side with zero start, x already optimal, identity projection")
 
 SIG = {
